@@ -7,8 +7,9 @@ from .rtlil import parse as P
 from .rtlil import eval as E
 
 
-def convert(bd):
-    """-> RTLIL text with explicit port names and directions."""
+def convert(bd, form=None):
+    """-> RTLIL text.  Ports are given either as a dict with explicit names and directions or as a plain
+    list of signals (names and directions derived by the elaborator); the port names are the same."""
     from amaranth.back import rtlil
     from amaranth.hdl._ir import PortDirection
     ports = {}
@@ -19,6 +20,10 @@ def convert(bd):
         ports["rst"] = (bd.cd.rst, PortDirection.Input)
     for name, o, key in bd.outs:
         ports[name] = (o, PortDirection.Output)
+    if form is None:
+        form = "dict" if (len(bd.outs) + len(bd.inputs)) % 3 else "list"
+    if form == "list":
+        return rtlil.convert(bd.top, ports=[v for (v, d) in ports.values()], emit_src=False)
     return rtlil.convert(bd.top, ports=ports, emit_src=False)
 
 
